@@ -127,6 +127,13 @@ mod derived {
 	#[derive(Encode, Decode)]
 	#[repr(transparent)]
 	pub struct LedArrT(pub [Led; 3]);
+	/// zero-sized in memory, one byte on the wire, and it rejects every byte but one
+	#[derive(Encode, Decode)]
+	pub enum ZTag { #[codec(index = 1)] Only }
+	/// transparent: one instrumented field followed by a zero-sized field whose decoding can fail
+	#[derive(Encode, Decode)]
+	#[repr(transparent)]
+	pub struct LedTZ { pub led: Led, pub tag: ZTag }
 	/// the only field is skipped: decoding consumes nothing and must fill it with its default, in place too
 	#[derive(Encode, Decode)]
 	#[repr(transparent)]
@@ -267,6 +274,16 @@ pub fn run_vector(ctx: &mut Ctx, shape: &str, n: usize, f: i64, kind: &str) {
 		"rctranspskip" if n == 1 => run::<Rc<LedSkip>>(ctx, shape, 1, f, kind, vec![], 1),
 		#[cfg(feature = "derive")]
 		"arraytranspskip" if n == 1 => run::<[LedSkip; 3]>(ctx, shape, 1, f, kind, vec![], 3),
+		// the zero-sized companion field of a transparent struct fails after the data field was built in place
+		#[cfg(feature = "derive")]
+		"boxtransptag" | "rctransptag" | "arraytransptag" if n == 1 => {
+			let inp: Vec<u8> = if f < 0 { vec![5, 1] } else if kind == "exhausted" { vec![5] } else { vec![5, 9] };
+			match shape {
+				"boxtransptag" => run::<Box<LedTZ>>(ctx, shape, 1, f, kind, inp, 1),
+				"rctransptag" => run::<Rc<LedTZ>>(ctx, shape, 1, f, kind, inp, 1),
+				_ => run::<[LedTZ; 1]>(ctx, shape, 1, f, kind, inp, 1),
+			}
+		},
 		#[cfg(feature = "derive")]
 		"boxarrtransp3" if n == 3 => run::<Box<LedArrT>>(ctx, shape, 3, f, kind, elems(3, f, kind, None), 3),
 		_ => {},
